@@ -142,8 +142,8 @@ def writer_correspondence(ctx, mode, obs, limit=80):
     exprs = []
     for c, r in pick:
         if c["fn"] == "make_definitions":
-            mask = "[" + "; ".join("0" if v is None else "1" for v in c["vals"]) + "]"
-            exprs.append("gen_make_definitions %s %d %d %s" % ("true" if c["no_nulls"] else "false", c["version"], len(c["vals"]), mask))
+            packed = "[" + "; ".join(str(x) for x in bytes.fromhex(r[3])) + "]"
+            exprs.append("gen_make_definitions %s %d %d %s" % ("true" if c["no_nulls"] else "false", c["version"], len(c["vals"]), packed))
         else:
             exprs.append("gen_encode_dict %d [%s]" % (c["meta"]["isz"], "; ".join(str(v) for v in c["vals"])))
     req = ("From Coq Require Import NArith List.\nFrom PqGen Require Import GenWriter.\nImport ListNotations.\nOpen Scope N_scope.\n")
